@@ -462,6 +462,10 @@ impl Iterator for QueryState<'_> {
             let exception_term =
                 Term::from_heapcell(machine, machine.machine_st.heap[h], &mut var_names.clone());
 
+            // the exception has been reported: it must not be reported again
+            // by this or by a later query.
+            machine.machine_st.ball.reset();
+
             if let Term::Compound(functor, args) = &exception_term {
                 if functor == "error" && args.len() == 2 {
                     // We have an error
